@@ -900,7 +900,9 @@ func (i *interpreter) unop(fr *frame, instr *ssa.UnOp, x value) value {
 		if x.(*value) == nil {
 			panic(runtimeError("invalid memory address or nil pointer dereference"))
 		}
-		i.memAccess(fr, x.(*value), false)
+		if !zeroSize(mustDeref(instr.X.Type())) {
+			i.memAccess(fr, x.(*value), false)
+		}
 		return load(mustDeref(instr.X.Type()), x.(*value))
 	case token.NOT:
 		return !x.(bool)
